@@ -392,36 +392,57 @@ def _param(name, pos=True):
 
 
 class KMRun:
-    def __init__(self, P, stability, with_wd):
-        self.zm, self.z0, self.ws, self.ustar, self.sv = _param("zm"), _param("z0"), _param("ws"), _param("ustar"), _param("sigma_v")
+    """abstract run of estimateFootprint.  form=True reparametrises the inputs so that the
+    derived quantities are positive symbols (a bijection of the input space, so 'for all
+    inputs' is preserved): m = r - 2 + n, z0 chosen such that U is a symbol, the cell
+    offset from the receptor (x, y) = (Xs, Ys)."""
+
+    def __init__(self, P, stability, with_wd, form=False):
+        self.zm, self.ws, self.ustar, self.sv = _param("zm"), _param("ws"), _param("ustar"), _param("sigma_v")
         self.Lm = _param("Lmo")
         self.L = self.Lm if stability == "stable" else -self.Lm
         self.xmin, self.xmax, self.ymin, self.ymax = alg.sym("xmin"), alg.sym("xmax"), alg.sym("ymin"), alg.sym("ymax")
         self.res_ = _param("grid_res")
-        self.mx, self.my = alg.sym("mx"), alg.sym("my")
         self.wd = alg.sym("wd") if with_wd else None
+        self.form = form
+        self.helper_calls = []
+        self.npar, self.rpar, self.Upar = alg.sym("n_par", pos=True), alg.sym("r_par", pos=True), alg.sym("U_par", pos=True)
+        self.hv = {"_phiM": alg.sym("phi_m", pos=True), "_phiC": alg.sym("phi_c", pos=True), "_psiM": alg.sym("psi_m"),
+                   "_mParam": self.rpar - 2 + self.npar, "_nParam": self.npar}
+        stubs = {}
+        for hn, hv in self.hv.items():
+            def stub(I, a, kw, node, hn=hn, hv=hv):
+                self.helper_calls.append((hn, list(a), dict(kw)))
+                return Arr((ONE,), hv, "float", {})
+            stubs["bldfm.ffm_kormann_meixner." + hn] = stub
+        m = self.hv["_mParam"]
+        if form:
+            self.z0 = self.zm * alg.exp(self.hv["_psiM"] - KAPPA * self.Upar * alg.power(self.zm, m) / self.ustar)
+            self.Xs, self.Ys = alg.sym("Xs", pos=True) if not with_wd else alg.sym("Xs"), alg.sym("Ys")
+            GX, GY = alg.sym("GX"), alg.sym("GY")
+            self.mx, self.my = GX - self.Xs, GY - self.Ys
+            shp = (alg.sym("n_rows", pos=True, integer=True), alg.sym("n_cols", pos=True, integer=True))
+
+            def mesh(I, a, kw, node):
+                return Tup([Arr(shp, GX, "float", {}), Arr(shp, GY, "float", {})], "list")
+
+            stubs["numpy.meshgrid"] = mesh
+        else:
+            self.z0 = _param("z0")
+            self.mx, self.my = alg.sym("mx"), alg.sym("my")
         args = [self.zm, self.z0, self.ws, self.ustar, self.L, self.sv, Tup([self.xmin, self.xmax, self.ymin, self.ymax]), self.res_, Tup([self.mx, self.my])]
-        self.res = CM.run_paths(P, "bldfm.ffm_kormann_meixner", "estimateFootprint", args, {"wd": self.wd})
+        self.res = CM.run_paths(P, "bldfm.ffm_kormann_meixner", "estimateFootprint", args, {"wd": self.wd}, stubs=stubs)
 
 
 def km_spec(R, gx, gy):
-    """K&M (2001) Eqs. 9, 11, 18, 19, 21, 31-36 written from the paper"""
+    """K&M (2001) Eqs. 9, 11, 18, 19, 21 written from the paper, in the reparametrised symbols"""
     k = KAPPA
-    x_ = R.zm / R.L
-    if R.L is R.Lm:
-        phi_m, phi_c, psi_m, n = ONE + 5 * x_, ONE + 5 * x_, 5 * x_, ONE / (ONE + 5 * x_)
-    else:
-        phi_m = alg.power(ONE - 16 * x_, Q(-1, 4))
-        phi_c = alg.power(ONE - 16 * x_, Q(-1, 2))
-        zeta = alg.power(ONE - 16 * x_, Q(1, 4))
-        psi_m = -2 * alg.log((ONE + zeta) / 2) - alg.log((ONE + zeta * zeta) / 2) + 2 * alg.arctan(zeta) - alg.atom_expr(alg.PI) / 2
-        n = (ONE - 24 * x_) / (ONE - 16 * x_)
-    m = R.ustar * phi_m / (k * R.ws)
-    kappa = k * R.zm * R.ustar / (phi_c * alg.power(R.zm, n))
-    U = R.ustar * (alg.log(R.zm / R.z0) + psi_m) / (k * alg.power(R.zm, m))
+    phi_c, psi_m, m, n = R.hv["_phiC"], R.hv["_psiM"], R.hv["_mParam"], R.hv["_nParam"]
+    kappa = k * R.zm * R.ustar / (phi_c * alg.power(R.zm, n))          # K(z) = kappa z^n matched at zm (Eqs. 11, 32)
+    U = R.ustar * (alg.log(R.zm / R.z0) + psi_m) / (k * alg.power(R.zm, m))  # u(z) = U z^m matched at zm (Eqs. 11, 31)
     r = 2 + m - n
     mu = (ONE + m) / r
-    xi = U * alg.power(R.zm, r) / (r * r * kappa)
+    xi = U * alg.power(R.zm, r) / (r * r * kappa)                       # Eq. 19
     gmu = alg.fn("gamma", mu, pos=True)
     g1r = alg.fn("gamma", ONE / r, pos=True)
     x0, y0 = gx - R.mx, gy - R.my
@@ -438,51 +459,100 @@ def km_spec(R, gx, gy):
     return f * Dy * R.res_ * R.res_, dict(U=U, x=x, y=y, m=m, n=n)
 
 
+def km_helper_obligations(P):
+    """Eqs. 33-36 and the dtype discipline of the stability helpers"""
+    obs = []
+    k = KAPPA
+    for stab in ("stable", "unstable"):
+        zmv, Lp = _param("zm"), _param("Lmo")
+        Lv = Lp if stab == "stable" else -Lp
+        x_ = zmv / Lv
+        if stab == "stable":
+            spec = {"_phiM": ONE + 5 * x_, "_phiC": ONE + 5 * x_, "_psiM": 5 * x_, "_nParam": ONE / (ONE + 5 * x_)}
+        else:
+            zeta = alg.power(ONE - 16 * x_, Q(1, 4))
+            spec = {"_phiM": alg.power(ONE - 16 * x_, Q(-1, 4)), "_phiC": alg.power(ONE - 16 * x_, Q(-1, 2)),
+                    "_psiM": -2 * alg.log((ONE + zeta) / 2) - alg.log((ONE + zeta * zeta) / 2) + 2 * alg.arctan(zeta) - alg.atom_expr(alg.PI) / 2,
+                    "_nParam": (ONE - 24 * x_) / (ONE - 16 * x_)}
+        for hn, sp in spec.items():
+            site = "src/bldfm/ffm_kormann_meixner.py::%s (%s)" % (hn, stab)
+            # called as the footprint routine calls it: one-element arrays made of the caller's scalars
+            za = Arr((ONE,), zmv, "inherit:zm", {"param_derived": "zm"}, "zm")
+            la = Arr((ONE,), Lv, "inherit:mo_len", {"param_derived": "mo_len"}, "mo_len")
+            res = CM.run_paths(P, "bldfm.ffm_kormann_meixner", hn, [za, la], {})
+            rets = [r for r in res if r.kind == "return"]
+            if len(res) != 1 or len(rets) != 1 or not isinstance(rets[0].value, Arr):
+                obs.append(req_ob("R-KM-FORM", site, "one straight path", False if res else None, detail=str([(r.kind, r.raise_desc, r.path) for r in res])[:300]))
+                continue
+            obs.append(eq_ob("R-KM-FORM", site, "%s is the published stability function" % hn, rets[0].value.val, sp, "K&M (2001) Eqs. 33-36", key={"helper": hn, "stability": stab}))
+            ev = [e for e in rets[0].events if e[0] == "dtype"]
+            obs.append(req_ob("R-DTYPE", site, "the result is not stored into storage that inherits the dtype of a caller-supplied argument (integers and floats alike)", not ev,
+                              detail="; ".join("%s %s" % (e[1], e[2]) for e in ev[:3]) or None, key={"helper": hn}))
+    # m = ustar phi_m / (k ws)
+    zmv, wsv, usv, Lp = _param("zm"), _param("ws"), _param("ustar"), _param("Lmo")
+    ph = alg.sym("phi_m", pos=True)
+    stub = {"bldfm.ffm_kormann_meixner._phiM": (lambda I, a, kw, node: Arr((ONE,), ph, "float", {}))}
+    res = CM.run_paths(P, "bldfm.ffm_kormann_meixner", "_mParam", [Arr((ONE,), zmv, "float", {}), Arr((ONE,), wsv, "float", {}), Arr((ONE,), usv, "float", {}), Arr((ONE,), Lp, "float", {})], {}, stubs=stub)
+    rets = [r for r in res if r.kind == "return"]
+    site = "src/bldfm/ffm_kormann_meixner.py::_mParam"
+    if len(rets) == 1 and isinstance(rets[0].value, Arr):
+        obs.append(eq_ob("R-KM-FORM", site, "m = ustar phi_m / (k ws)", rets[0].value.val, usv * ph / (k * wsv), "K&M Eq. 36"))
+    else:
+        obs.append(req_ob("R-KM-FORM", site, "one straight path", None))
+    return obs
+
+
 def km_obligations(P):
     obs = []
     site = "src/bldfm/ffm_kormann_meixner.py::estimateFootprint"
-    for stab in ("stable", "unstable"):
-        for with_wd in (False, True):
-            R = KMRun(P, stab, with_wd)
-            tag = "(%s, %s)" % (stab, "rotated by wd" if with_wd else "wind-aligned grid")
-            rets = [r for r in R.res if r.kind == "return"]
-            if not rets:
-                obs.append(req_ob("R-KM-FORM", site, "interpretable %s" % tag, None, detail=str([(r.kind, r.raise_desc) for r in R.res])[:300]))
+    for with_wd in (False, True):
+        tag = "(%s)" % ("rotated by wd" if with_wd else "wind-aligned grid")
+        # form: reparametrised inputs (see KMRun)
+        R = KMRun(P, "stable", with_wd, form=True)
+        rets = [r for r in R.res if r.kind == "return"]
+        ups = []
+        for r in rets:
+            v = r.value
+            if not (isinstance(v, Tup) and len(v.items) == 3 and all(isinstance(i, Arr) for i in v.items)):
                 continue
-            up, down, neg = [], [], []
-            for r in rets:
+            gx, gy, ffm = v.items
+            spec, parts = km_spec(R, gx.val, gy.val)
+            if not r.facts.possible(parts["x"].expand()) <= {"+"}:
+                continue
+            ups.append(r)
+            obs.append(eq_ob("R-KM-FORM", site, "upwind cells hold f(x) * D_y(x, y) * cell area %s" % tag, ffm.val, spec,
+                             "K&M (2001): f = xi^mu e^(-xi/x) / (Gamma(mu) x^(1+mu)) (Eq. 21); D_y Gaussian with sigma = sigma_v x / ubar(x) (Eqs. 9, 18); xi Eq. 19; u = U z^m, K = kappa z^n matched at zm (Eqs. 11, 31, 32)", key={"wd": with_wd}))
+            if isinstance(ffm.val, Expr) and not with_wd:
+                ya = _atom(R.Ys)
+                obs.append(eq_ob("R-KM-FORM", site, "symmetric about the wind axis (even in the crosswind offset) %s" % tag, ffm.val.expand().subs({ya: -R.Ys}), ffm.val.expand()))
+            want = {"_phiM", "_phiC", "_psiM", "_mParam", "_nParam"}
+            called = {h for h, _, _ in R.helper_calls}
+            obs.append(req_ob("R-KM-FORM", site, "the power-law parameters come from the stability helpers %s" % tag, called >= want - {"_phiM"}, detail=str(sorted(called))))
+        obs.append(req_ob("R-KM-FORM", site, "an upwind path exists %s" % tag, bool(ups)))
+        # zero structure, dtype and shapes: plain inputs
+        for stab in ("stable", "unstable"):
+            R2 = KMRun(P, stab, with_wd, form=False)
+            rets2 = [r for r in R2.res if r.kind == "return"]
+            nz = 0
+            for r in rets2:
                 v = r.value
                 if not (isinstance(v, Tup) and len(v.items) == 3 and all(isinstance(i, Arr) for i in v.items)):
                     obs.append(req_ob("R-KM-FORM", site, "returns (grid_x, grid_y, grid_ffm) %s" % tag, False))
                     continue
                 gx, gy, ffm = v.items
-                spec, parts = km_spec(R, gx.val, gy.val)
-                pu = r.facts.possible(parts["U"].expand())
-                px = r.facts.possible(parts["x"].expand())
-                if pu <= {"-"}:
-                    neg.append((r, ffm))
-                elif px <= {"+"}:
-                    up.append((r, ffm, spec, gx, gy))
-                else:
-                    down.append((r, ffm))
-                ev = [e for e in r.events if e[0] == "dtype"]
-                obs.append(req_ob("R-DTYPE", site, "no helper stores a float into storage whose dtype is inherited from a caller-supplied argument %s" % tag, not ev,
-                                  detail="; ".join("%s %s" % (e[1], e[2]) for e in ev[:4]) or None, key={"stability": stab}))
-                sh = [e for e in r.events if e[0] == "shape"]
-                obs.append(req_ob("R-KM-FORM", site, "shape-consistent %s" % tag, not sh, detail=str(sh[:2]) if sh else None))
-            obs.append(req_ob("R-KM-FORM", site, "an upwind, a downwind and a negative-U path exist %s" % tag, bool(up) and bool(down) and bool(neg), detail="%d/%d/%d" % (len(up), len(down), len(neg))))
-            for r, ffm, spec, gx, gy in up:
-                obs.append(eq_ob("R-KM-FORM", site, "upwind cells hold f(x) * D_y(x, y) * cell area %s" % tag, ffm.val, spec,
-                                 "K&M (2001): f = xi^mu e^(-xi/x) / (Gamma(mu) x^(1+mu)); D_y Gaussian with sigma = sigma_v x / ubar(x); parameters Eqs. 11, 18, 19, 31-36", key={"stability": stab, "wd": with_wd}))
-                if isinstance(ffm.val, Expr) and not with_wd:
-                    mya = _atom(R.my)
-                    obs.append(eq_ob("R-KM-FORM", site, "symmetric about the wind axis (only y^2 occurs) %s" % tag, ffm.val.expand().subs({mya: 2 * gy.val - R.my}), ffm.val.expand()))
+                x0 = gx.val - R2.mx
+                stored = isinstance(ffm.val, Expr) and not ffm.val.is_zero()
+                if not stored:
+                    nz += 1
+                    obs.append(eq_ob("R-KM-FORM", site, "cells that are not upwind (and the U < 0 early return) hold exactly zero %s %s" % (tag, stab), ffm.val, ZERO))
                 shp_ok = ffm.shape is not None and gx.shape is not None and all(a.eq(b) for a, b in zip(ffm.shape, gx.shape))
                 obs.append(req_ob("R-KM-FORM", site, "footprint grid has the shape of the coordinate grids %s" % tag, shp_ok))
-            for r, ffm in down + neg:
-                obs.append(eq_ob("R-KM-FORM", site, "cells that are not upwind (or a physically impossible U < 0) hold exactly zero %s" % tag, ffm.val, ZERO))
+                sh = [e for e in r.events if e[0] == "shape"]
+                obs.append(req_ob("R-KM-FORM", site, "shape-consistent %s" % tag, not sh, detail=str(sh[:2]) if sh else None))
+            obs.append(req_ob("R-KM-FORM", site, "zero paths (downwind cells, U < 0) exist %s %s" % (tag, stab), nz >= 2, detail="%d" % nz))
+    obs.extend(km_helper_obligations(P))
     # grid: cell centres, x increasing with column, y decreasing with row
-    R = KMRun(P, "stable", False)
+    R = KMRun(P, "stable", False, form=False)
     rets = [r for r in R.res if r.kind == "return"]
     if rets:
         gx, gy, _ = rets[0].value.items
@@ -506,9 +576,10 @@ def km_obligations(P):
                 obs.append(req_ob("R-KM-Z0", site_z, "z0 estimate algebraic (%s)" % stab, None, detail=repr(zv)[:200]))
                 continue
             zv = zv.expand()
-            inner = [a for a in zv.atoms() if a.kind == "fn" and a.name == "upd"]
-            if inner:
-                zv = inner[0].args[0]
+            if zv.eq(alg.sym("nan")):
+                # the outlier path (z0 > 1000 replaced by nan): nothing to compare
+                obs.append(Ob("R-KM-Z0", site_z, "estimates above 1000 m are discarded (%s)" % stab, "holds", nontrivial=False))
+                continue
             x_ = zm.val / mo.val
             if stab == "stable":
                 psi_m = 5 * x_
